@@ -35,7 +35,13 @@ impl Game {
         Self::from_board(Board::starting_position(), search_depth)
     }
 
-    pub fn from_board(board: Board, search_depth: u8) -> Self {
+    pub fn from_board(mut board: Board, search_depth: u8) -> Self {
+        // The starting position takes part in the repetition count, exactly once
+        // (the caller may or may not have registered it already).
+        if board.count_current_position() > 1 {
+            board.uncount_current_position();
+        }
+
         Self {
             board,
             move_history: Vec::new(),
@@ -108,9 +114,19 @@ impl Game {
         Ok(chess_move.clone())
     }
 
+    /// Registers the position that has just arisen for the repetition count. Moves are
+    /// applied before the caller toggles the turn, so the position is counted as seen
+    /// by the player who is about to move.
+    fn count_position_after_move(&mut self) {
+        self.board.toggle_turn();
+        self.board.count_current_position();
+        self.board.toggle_turn();
+    }
+
     pub fn apply_chess_move(&mut self, chess_move: ChessMove) -> Result<(), GameError> {
         match chess_move.apply(&mut self.board) {
             Ok(_capture) => {
+                self.count_position_after_move();
                 self.save_move(chess_move.clone());
                 Ok(())
             }
@@ -151,6 +167,7 @@ impl Game {
         best_move
             .apply(&mut self.board)
             .map_err(|error| GameError::BoardError { error })?;
+        self.count_position_after_move();
         self.save_move(best_move.clone());
         Ok(best_move)
     }
@@ -189,6 +206,7 @@ impl Game {
         let chess_move = self.select_waterfall_book_then_alpha_beta_best_move()?;
         match chess_move.apply(&mut self.board) {
             Ok(_capture) => {
+                self.count_position_after_move();
                 self.save_move(chess_move.clone());
                 Ok(chess_move.clone())
             }
